@@ -25,7 +25,7 @@ THEOREMS = [
     'Pyiga.Props.C09.kron_path_mass_2d', 'Pyiga.Props.C09.kron_path_stiffness_2d',
     'Pyiga.Props.C09.kron_path_mass_3d', 'Pyiga.Props.C09.kron_path_stiffness_3d',
     'Pyiga.Props.C09.gauss_weights_sum', 'Pyiga.Props.C09.gauss_nodes_inside',
-    'Pyiga.Props.C09.total_mass', 'Pyiga.Props.C09.stiffness_row_sum_zero', 'Pyiga.Props.C09.stiffness_col_sum_zero',
+    'Pyiga.Props.C09.total_mass', 'Pyiga.Props.C09.mass_total_1d', 'Pyiga.Props.C09.stiffness_row_sum_1d', 'Pyiga.Props.C09.stiffness_row_sum_zero', 'Pyiga.Props.C09.stiffness_col_sum_zero',
     'Pyiga.Props.C09.gram_symmetric', 'Pyiga.Props.C09.gram_quadratic_form', 'Pyiga.Props.C09.gram_psd',
     'Pyiga.Props.C09.kron_symmetric', 'Pyiga.Props.C09.kron_total',
     'Pyiga.Props.C09.load_vector_spec', 'Pyiga.Props.C09.integrate_spec', 'Pyiga.Props.C09.integrate_spec_2d',
@@ -618,7 +618,7 @@ def run(ctx):
             {'kind': 'vec', 'abs': 'load %s %s %s' % (fmat(np.abs(C)), fl(q[1]), fl(np.abs(fv))), 'nterms': len(q[0]) + 4,
              'what': 'load_vector', 'case': {'kv': kv.kv.tolist(), 'p': kv.p, 'f_poly': fp}})
         ctx.count('load_vector')
-    # known finding: an axis with a single quadrature node (all degrees 0 and a one-span axis)
+    # fixed finding gal:single-node-axis (repo commit ac6496d): an axis with a single quadrature node (all degrees 0, one-span axis)
     def single_node_axis(kvs):
         return max(kv.p for kv in kvs) == 0 and any(kv.numspans == 1 for kv in kvs)
 
@@ -642,8 +642,7 @@ def run(ctx):
         dim = 1 + it % 3
         kvs = tuple(rand_kv(rng, maxp=(4, 3, 2)[dim - 1], nspans=int(rng.integers(1, (5, 4, 3)[dim - 1]))) for _ in range(dim))
         if single_node_axis(kvs):
-            ctx.count('skipped: single-node axis (known finding gal:single-node-axis)')
-            continue
+            ctx.count('single-node axis (regression of fixed finding gal:single-node-axis)')
         nqp = max(kv.p for kv in kvs) + 1
         x, w = leg(nqp)
         grid, wts = quadrature.make_tensor_quadrature([kv.mesh for kv in kvs], nqp)
@@ -1087,7 +1086,7 @@ def run(ctx):
             d = identities(kvs if dim > 1 else kvs[0], geo, area, tag)
             if d is None and dim >= 2:
                 d = oracle_tp(kvs, 'mass', 'kron') or (oracle_tp(kvs, 'stiff', 'generic') if min(kv.p for kv in kvs) >= 1 else None)
-            if d is None and geo is not None and not single_node_axis(kvs):
+            if d is None and geo is not None:
                 gi = float(assemble.integrate(kvs, lambda x, y: 1.0 + 0 * x, geo=geo))
                 if abs(F(gi) - area) > F(1, 2 ** 36) * area:
                     d = 'integrate(1, geo) = %r but the area is %s' % (gi, area)
